@@ -176,9 +176,96 @@ def r15_5(prog: Program, chk: Check) -> None:
             chk.ob("R15.5", f"{mod.name}::{q}::tests-errors", ok, prog.site(mod, c), "the errors returned by resolve_bounds_map must be tested and turned into a rejection")
 
 
+def _leaves(stmts: List[ast.stmt], guards: List[Tuple[ast.AST, bool]]) -> List[Tuple[List[Tuple[ast.AST, bool]], List[ast.stmt]]]:
+    """Paths through an if/elif/else tree of simple statements: (guards, statements executed)."""
+    paths: List[Tuple[List[Tuple[ast.AST, bool]], List[ast.stmt]]] = [(list(guards), [])]
+    for st in stmts:
+        nxt = []
+        for g, done in paths:
+            if done and isinstance(done[-1], (ast.Continue, ast.Return, ast.Break, ast.Raise)):
+                nxt.append((g, done))
+                continue
+            if isinstance(st, ast.If):
+                for g2, d2 in _leaves(st.body, g + [(st.test, True)]):
+                    nxt.append((g2, done + d2))
+                for g2, d2 in _leaves(st.orelse, g + [(st.test, False)]):
+                    nxt.append((g2, done + d2))
+            else:
+                nxt.append((g, done + [st]))
+        paths = nxt
+    return paths
+
+
+def r15_6(prog: Program, chk: Check) -> None:
+    chk.rule(
+        "R15.6",
+        "no bound is forgotten: in solve() a lower (upper) bound leaves the accumulated bottom (top) unchanged only when the "
+        "accumulated value already implies it - bottom.is_assignable(bound.value) / bound.value.is_assignable(top) - "
+        "or under the documented Any exemption; never on the strength of the other accumulator",
+        floor=4,
+    )
+    fn = prog.func("typevar", "solve")
+    loop = next((n for n in walk_no_nested(fn) if isinstance(n, ast.For) and norm(n.iter) == "bounds" and isinstance(n.target, ast.Name)), None)
+    if loop is None:
+        raise AnchorError("solve: loop over bounds not found")
+    b = loop.target.id
+    arms: Dict[str, List[ast.stmt]] = {}
+    cur = loop.body[0] if loop.body else None
+    while isinstance(cur, ast.If):
+        t = norm(cur.test)
+        for kind in ("LowerBound", "UpperBound"):
+            if t == f"isinstance({b}, {kind})":
+                arms[kind] = cur.body
+        cur = cur.orelse[0] if len(cur.orelse) == 1 and isinstance(cur.orelse[0], ast.If) else None
+    if set(arms) != {"LowerBound", "UpperBound"}:
+        raise AnchorError("solve: LowerBound / UpperBound arms not found")
+    spec = {
+        "LowerBound": ("bottom", lambda c: norm(c.func) == "bottom.is_assignable" and c.args and norm(c.args[0]) == f"{b}.value"),
+        "UpperBound": ("top", lambda c: norm(c.func) == f"{b}.value.is_assignable" and c.args and norm(c.args[0]) == "top"),
+    }
+    for kind, body in arms.items():
+        acc, implied = spec[kind]
+        n = 0
+        for guards, done in _leaves(body, []):
+            if any(isinstance(s, ast.Return) for s in done):
+                continue
+            if any(isinstance(s, ast.Assign) and any(norm(t) == acc for t in s.targets) for s in done):
+                continue
+            n += 1
+            pos_calls: List[ast.Call] = []
+
+            def pos(t: ast.AST) -> None:
+                if isinstance(t, ast.BoolOp) and isinstance(t.op, ast.And):
+                    for v in t.values:
+                        pos(v)
+                elif isinstance(t, ast.UnaryOp) and isinstance(t.op, ast.Not):
+                    neg(t.operand)
+                elif isinstance(t, ast.Call):
+                    pos_calls.append(t)
+
+            def neg(t: ast.AST) -> None:
+                if isinstance(t, ast.BoolOp) and isinstance(t.op, ast.Or):
+                    for v in t.values:
+                        neg(v)
+                elif isinstance(t, ast.UnaryOp) and isinstance(t.op, ast.Not):
+                    pos(t.operand)
+
+            for t, inbody in guards:
+                (pos if inbody else neg)(t)
+            ok = any(implied(c) for c in pos_calls)
+            exempt = kind == "LowerBound" and any(
+                inbody and f"isinstance({b}.value, AnyValue)" in norm(t) and "bottom is not BOTTOM" in norm(t) for t, inbody in guards
+            )
+            gtxt = " and ".join(("" if inbody else "not ") + "(" + norm(t) + ")" for t, inbody in guards) or "<unconditional>"
+            chk.ob("R15.6", f"typevar::solve::{kind}::unchanged-{acc}::path{n}", ok or exempt, prog.site("typevar", done[-1] if done else body[0]),
+                   f"a {kind} is dropped without updating `{acc}` when {gtxt}: that does not establish that `{acc}` already implies the bound, so the verdict depends on the order of the bounds")
+        chk.ob("R15.6", f"typevar::solve::{kind}::has-update-path", any(any(isinstance(s, ast.Assign) and any(norm(t) == acc for t in s.targets) for s in d) for _, d in _leaves(body, [])), prog.site("typevar", body[0]), f"the {kind} arm never updates `{acc}`")
+
+
 def run(prog: Program, chk: Check) -> None:
     r15_1(prog, chk)
     r15_2(prog, chk)
     r15_3(prog, chk)
     r15_4(prog, chk)
     r15_5(prog, chk)
+    r15_6(prog, chk)
